@@ -65,8 +65,12 @@ func (fx *FnCtx) intrinsic(st *State, call *ast.CallExpr) ([]Val, bool) {
 		st.assume(fmt.Sprintf("(= (off_%s %s) (off_%s %s))", old.S, nw, old.S, old.T))
 		st.assume(fmt.Sprintf("(= (bid_%s %s) (bid_%s %s))", old.S, nw, old.S, old.T))
 		st.assume(fmt.Sprintf("(forall ((i Int) (j Int)) (! (=> (and (<= 0 i) (< i j) (< j (len_%s %s))) (sle (%s %s i) (%s %s j))) :pattern ((%s %s i) (%s %s j))))", old.S, nw, el, nw, el, nw, el, nw, el, nw))
-		st.assume(fmt.Sprintf("(forall ((i Int)) (! (=> (and (<= 0 i) (< i (len_%s %s))) (exists ((j Int)) (and (<= 0 j) (< j (len_%s %s)) (= (%s %s i) (%s %s j))))) :pattern ((%s %s i))))", old.S, nw, old.S, old.T, el, nw, el, old.T, el, nw))
-		st.assume(fmt.Sprintf("(forall ((j Int)) (! (=> (and (<= 0 j) (< j (len_%s %s))) (exists ((i Int)) (and (<= 0 i) (< i (len_%s %s)) (= (%s %s i) (%s %s j))))) :pattern ((%s %s j))))", old.S, old.T, old.S, nw, el, nw, el, old.T, el, old.T))
+		// the rearrangement is a permutation: perm maps new indices to old ones, inv is its inverse
+		perm, inv := fx.sc.Fresh("perm", "(Array Int Int)"), fx.sc.Fresh("inv", "(Array Int Int)")
+		st.assume(fmt.Sprintf("(forall ((i Int)) (! (=> (and (<= 0 i) (< i (len_%s %s))) (and (<= 0 (select %s i)) (< (select %s i) (len_%s %s)) (= (%s %s i) (%s %s (select %s i))) (= (select %s (select %s i)) i))) :pattern ((%s %s i))))",
+			old.S, nw, perm, perm, old.S, nw, el, nw, el, old.T, perm, inv, perm, el, nw))
+		st.assume(fmt.Sprintf("(forall ((j Int)) (! (=> (and (<= 0 j) (< j (len_%s %s))) (and (<= 0 (select %s j)) (< (select %s j) (len_%s %s)) (= (%s %s (select %s j)) (%s %s j)) (= (select %s (select %s j)) j))) :pattern ((%s %s j))))",
+			old.S, nw, inv, inv, old.S, nw, el, nw, inv, el, old.T, perm, inv, el, old.T))
 		fx.assign(st, call.Args[0], nv)
 		return nil, true
 	}
